@@ -446,6 +446,15 @@ def run_case(case, ctx):
                 raise Violation("approximation-does-not-reproduce-value-or-gradient", response=i, err=ea, iteration=itn, **desc)
             require(np.all(L["P"][i] >= 0) and np.all(L["Q"][i] >= 0), "approximation-not-convex", response=i, iteration=itn, **desc)
         x, y, z, lam, xsi, eta, mu, zet, s = L["out"]
+        if not np.all(np.isfinite(x)):
+            # the interior-point iteration broke down (1/0 when an iterate rounds onto its bound).  If the executable model of the
+            # published algorithm breaks down on the same subproblem, the library is faithful to it and the finding is the listed one
+            (xr, *_r), _n = subsolv_ref(L["eps"], L["low"], L["upp"], L["alfa"], L["beta"], L["P"], L["Q"], L["a0"], L["a"], L["b"], L["c"], L["d"],
+                                        x0=L["x0"])
+            same = not np.all(np.isfinite(xr))
+            raise Violation("subproblem-solution-not-finite" + ("/published-subsolver-breaks-down-on-the-same-subproblem" if same else ""),
+                            iteration=itn, max_abs_bound=float(max(np.max(np.abs(L["alfa"])), np.max(np.abs(L["beta"])))),
+                            c=float(np.max(L["c"])), eps=float(L["eps"]), **desc)
         if not (np.all(x > L["alfa"]) and np.all(x < L["beta"])):
             raise Violation("subproblem-solution-not-strictly-inside-interval", iteration=itn, **desc)
         args = (L["low"], L["upp"], L["alfa"], L["beta"], L["P"], L["Q"], L["a0"], L["a"], L["b"], L["c"], L["d"])
@@ -480,6 +489,10 @@ def run_case(case, ctx):
         # (bound formulation: every constraint is active at the optimum and MMA creeps along the constraint boundaries - measured on the
         # unchanged tree: 3e-4 constraint violation after 60 iterations; only the per-iteration clauses are judged for these runs)
         pass
+    elif (len(log) >= 12 and len(log) < 1.5 * float(np.max(np.abs(X[0] - xopt) / (movev * rngx))) + 6) and not converged_early:
+        # (the move limit does not let the iterates get from the start to the optimum in the iterations allowed: 0.05 of the range per
+        # iteration, 15 iterations, an infeasible start at the other end of the box - nothing is claimed for such a run)
+        ctx.count("runs_too_short_to_reach_the_optimum_within_the_move_limit")
     elif len(log) >= 12 or converged_early:
         if gfin > 1e-5:
             raise Violation("constraints-not-satisfied-at-the-end", gmax=gfin, **desc)
